@@ -8,6 +8,7 @@
 
 #include <sstream>
 #include <bitset>
+#include <algorithm>
 #include <type_traits>
 
 #include "block.h"
@@ -1482,7 +1483,8 @@ void CDNS::IndexListItem::read(CdnsDecoder& dec)
     reset();
     bool indef = false;
     uint64_t length = dec.read_array_start(indef);
-    list.reserve(length);
+    // The length comes from the input: do not reserve more than a single decoder buffer fill can back
+    list.reserve(std::min<uint64_t>(length, static_cast<uint64_t>(CdnsDecoder::BUFFER_SIZE)));
 
     while (length > 0 || indef) {
         if (indef && dec.peek_type() == CborType::BREAK) {
